@@ -483,9 +483,11 @@ def b_from_bytes(ex, s, args, kw, node):
     if order is None or concrete_str(order) != 'big':
         raise Unsupported('int.from_bytes other than big-endian')
     sg = kw.get('signed')
+    if sg is not None and concrete_bool(ex.truthy(s, sg)) is False:
+        sg = None                       # signed=False is the default: unsigned big-endian, handled below
     if sg is not None:
         if concrete_bool(ex.truthy(s, sg)) is not True:
-            raise Unsupported('int.from_bytes with symbolic/false signed=')
+            raise Unsupported('int.from_bytes with symbolic signed=')
         # two's complement big-endian: never raises; value uninterpreted except for the empty string (== 0)
         f = z3.Function('sunbe', BytesS, IntS)
         s.assume(z3.Implies(z3.Length(b.z) == 0, f(b.z) == 0))
@@ -1655,3 +1657,29 @@ def st_rsplit1(ex, s, recv, r, args, kw, node):
 
 
 STR_METHODS.update({'rsplit': st_rsplit1})
+
+
+def b_type(ex, s, args, kw, node):
+    """type(obj) of a modelled class instance: its class (only the one-argument form)"""
+    if len(args) != 1 or kw:
+        raise Unsupported('type() with three arguments')
+    v = args[0]
+    if isinstance(v, VRef) and isinstance(s.heap.get(v.addr), Record_t()):
+        return [(s, VTag('class:' + s.heap[v.addr].cls))]
+    raise Unsupported(f'type({v!r})')
+
+
+FREE.setdefault('type', b_type)
+
+
+def di_copy(ex, s, recv, r, args, kw, node):
+    """d.copy(): a new dict with the same items (shallow).  Dicts are values in this model, so the copy is the same
+    value; that a COPY was taken (and of which dict) is recorded as the ghost event ('dict_copy', (source,)) so that
+    contracts can require "not an alias" (an alias would make later stores visible through the source)."""
+    if args or kw:
+        return None
+    s.events.append(('dict_copy', (r,)))
+    return [(s, s.alloc(VDict(dict(r.items))) if isinstance(r, VDict) else VMap(r.dom, r.val, r.kt, r.vt))]
+
+
+DICT_METHODS.setdefault('copy', di_copy)
